@@ -104,7 +104,8 @@ CHECKS["C04"] = {
     "engine": "E1",
     "technique": "bounded exhaustive enumeration of ALL byte strings / line sequences over a structural alphabet as file content, real read/query/write/merge code with sanitizers as oracle",
     "level_text": "every byte string up to length n over {NL, blank, TAB, =, #, ;, quote, [, ], letter, NUL, 0xE9, backslash} and every file of up to m lines "
-                  "over ~48 adversarial lines (incl. 9000-byte lines) is read under all 63 delimiter x comment x option configurations; every successful "
+                  "over ~48 adversarial lines (incl. 9000-byte lines) is read under all 63 delimiter x comment x option configurations and ten odd (delimiter, comment) "
+                  "pairs (blank/TAB as comment character, same character in both sets, brackets, quote or NL in a set); every successful "
                   "object goes through every listing, typed/defaulted/extended getter, write + re-read; all ordered pairs of distinct object shapes are merged; "
                   "oracle = termination, documented return code, no ASan/UBSan report",
     "level_note": "bounded: n<=4 all 63 configurations / n<=5 nine core configurations, m<=2 all / m<=3 four core configurations (quick); n<=5 / 6, m<=3 all / m<=4 four core (thorough); merge pairs over the shapes "
